@@ -371,10 +371,10 @@ Section RT.
       apply map_norm_fields; [exact Hlen|]. intros f x Hin. apply K3. rewrite Hsnd. exact Hin.
     - (* wrapped array *)
       destruct t as [| |e]; try discriminate. cbn [Model.pconf] in Hx.
-      destruct (mapM_Forall2 (penc k e (arr_ns (xc C) U e) (type_name U e))
+      destruct (mapM_Forall2 (penc k e (item_ns C U ns name e) (type_name U e))
                   (fun y el => pdec k ([] ++ sc) e true (wire el) = Ok (pnorm k e y)) xs) as [es [He HF]].
       { intros y Hy. rewrite forallb_forall in Hx.
-        destruct (IH e y (arr_ns (xc C) U e) (type_name U e) true ([] ++ sc) (Hx y Hy)) as [a [tx [ks [H1 H2]]]].
+        destruct (IH e y (item_ns C U ns name e) (type_name U e) true ([] ++ sc) (Hx y Hy)) as [a [tx [ks [H1 H2]]]].
         eexists. split; [exact H1|exact H2]. }
       exists [], None, es. split; [cbn [Model.penc]; rewrite He; reflexivity|].
       cbn [wire Model.pdec real_atts filter decls_of map]. replace (is_nil []) with false by reflexivity.
